@@ -145,7 +145,197 @@ RaisingCallEmitsNothing == (IsCall /\ last.p.r.c # "ok") => last.p.o = <<>>
 OnlyKnownExceptions ==
   IsStep => \/ last.p.r.c \in {"ok"} \cup H2Exceptions
             \/ IsCall /\ last.p.r.c \in {"ValueError", "TypeError"}
-            \/ Excused({"foreign_exception_headers"})
+
+\* ---------------------------------------------------------------- property formulas C01..C29 (on the step just taken)
+\* Every formula looks at the step in `last`, the state it started from (`src`, kept when EMIT) and the state it
+\* reached.  "Clean" = the acting endpoint has taken no marked deviation branch (known finding) on the way here:
+\* the formulas state what the properties demand of the deviation-free part of the as-built model.
+HasSrc   == IsStep /\ src # <<>>
+Pre      == src[1][last.x]
+Post     == eps[last.x]
+Clean    == IsStep /\ last.dev = {}
+AllClean == \A x \in Roles : eps[x].dev = {}
+InFrames == CASE last.a = "recv" -> [i \in 1..Len(last.fs) |-> ResolveFrame(last.fs[i], Pre)]
+              [] last.a = "dlv"  -> SubSeq(src[2][last.x], 1, last.k)
+              [] OTHER           -> <<>>
+OneFrame(ty) == HasSrc /\ last.a = "recv" /\ Len(last.fs) = 1 /\ last.fs[1].t = ty
+ROk == last.p.r.c = "ok"
+OutF == last.p.o
+RECURSIVE SumSeq(_)
+SumSeq(s) == IF s = <<>> THEN 0 ELSE s[1] + SumSeq(Tail(s))
+FclOf(f) == f.n + (IF f.pad >= 0 THEN f.pad + 1 ELSE 0)
+Count(seq, P(_)) == Len(SelectSeq(seq, P))
+\* the model-internal frames (header fields as tokens) the call of this step appends
+CallOutTokens == Call(Pre, ResolveCall(last.c)).ep.out
+
+\* C01/C13: between two deviation-free endpoints every delivery of the peer's frames is accepted
+P_C01_DeliveredSendsAccepted == (Pair /\ IsStep /\ last.a = "dlv" /\ AllClean) => ROk
+\* C13: the HPACK encoder context becomes unpredictable only through a marked failed-send deviation
+P_C13_CleanSendsDecode == \A x \in Roles : eps[x].hd => "failed_send_partial_state" \in eps[x].dev
+\* C02: no emitted DATA frame is larger than the peer's MAX_FRAME_SIZE in force when it was sent
+P_C02_FramesWithinLimits ==
+  HasSrc => \A i \in 1..Len(OutF) : OutF[i].t = "DATA" => FclOf(OutF[i]) <= Pre.mof
+\* C03: a successful send_data fits both windows; an oversized one raises FlowControlError and emits nothing
+P_C03_SendWithinWindows ==
+  (HasSrc /\ IsCall /\ last.c.op = "data" /\ last.c.pad <= 255 /\ Has(Pre, last.c.sid)) =>
+     LET fsz == FclOf(last.c)
+         w == Min(Pre.ow, Pre.streams[last.c.sid].ow)
+     IN /\ ROk => fsz <= w
+        /\ fsz > w => (last.p.r.c = "FlowControlError" /\ OutF = <<>>)
+        /\ ROk => (Post.ow = Pre.ow - fsz /\ Post.streams[last.c.sid].ow = Pre.streams[last.c.sid].ow - fsz)
+P_C03_WindowsBounded ==
+  \A x \in Roles : eps[x].ow <= MAXW /\ \A sid \in DOMAIN eps[x].streams : eps[x].streams[sid].ow <= MAXW
+\* C04: a DATA frame overrunning the advertised connection window is a FLOW_CONTROL_ERROR; FlowControlError only on overrun
+P_C04_InboundDataExactlyAtWindow ==
+  OneFrame("DATA") =>
+     LET f == last.fs[1]
+         fcl == FclOf(f)
+     IN /\ (Pre.conn # "CLOSED" /\ <<Pre.conn, "RECV_DATA">> \in DOMAIN ConnTable /\ fcl > Pre.iw.cur) => last.p.r.c = "FlowControlError"
+        /\ last.p.r.c = "FlowControlError" =>
+             (fcl > Pre.iw.cur \/ (Has(Pre, f.sid) /\ fcl > Pre.streams[f.sid].iw.cur))
+\* C04: the connection window moves only by WINDOW_UPDATEs actually emitted and DATA actually received
+P_C04_RemoteWindowIsAdvertised ==
+  (HasSrc /\ ROk /\ ~NoFlush(last) /\ Pre.out = <<>>) =>
+     LET wus == SelectSeq(OutF, LAMBDA f : f.t = "WU" /\ f.sid = 0)
+         ds  == SelectSeq(InFrames, LAMBDA f : f.t = "DATA")
+     IN Post.iw.cur - Pre.iw.cur = SumSeq([i \in 1..Len(wus) |-> wus[i].inc]) - SumSeq([i \in 1..Len(ds) |-> FclOf(ds[i])])
+\* C05: automatic window management never advertises more than the maximum
+P_C05_AutoUpdateWithinBounds ==
+  \A x \in Roles : /\ eps[x].iw.cur <= eps[x].iw.max /\ eps[x].iw.bp >= 0
+                   /\ \A sid \in DOMAIN eps[x].streams : LET w == eps[x].streams[sid].iw IN w.cur <= w.max /\ w.bp >= 0
+\* C06: RFC 7540 5.1 states only, CLOSED is final, id watermarks never move back
+RfcStates == {"IDLE", "RESERVED_LOCAL", "RESERVED_REMOTE", "OPEN", "HALF_CLOSED_LOCAL", "HALF_CLOSED_REMOTE", "CLOSED"}
+P_C06_StreamStatesAreRfcStates ==
+  /\ \A x \in Roles : \A sid \in DOMAIN eps[x].streams : eps[x].streams[sid].st \in RfcStates
+  /\ HasSrc => /\ \A sid \in DOMAIN Pre.streams : (Pre.streams[sid].st = "CLOSED" /\ Has(Post, sid)) => Post.streams[sid].st = "CLOSED"
+               /\ Post.hiIn >= Pre.hiIn /\ Post.hiOut >= Pre.hiOut
+\* C07: a deviation-free server reports only requests, a deviation-free client only responses and pushes
+P_C07_EventsFitRole ==
+  (Clean /\ IsRecv) => \A i \in 1..Len(last.p.e) :
+     LET t == last.p.e[i].t IN IF last.x = "s" THEN t \notin {"Resp", "Info", "Push"} ELSE t # "Req"
+\* C08: role restrictions on what a deviation-free endpoint emits
+P_C08_RoleRestrictedSends ==
+  (Clean /\ IsCall) => \A i \in 1..Len(OutF) :
+     LET f == OutF[i] IN IF last.x = "c" THEN f.t \notin {"PP", "ALT"}
+                         ELSE f.t # "PRIO" /\ (f.t = "HEADERS" => f.pr = <<>>)
+\* C09: watermarks have the right parity; the next id is above everything used and of the own parity
+P_C09_IdsIncreaseWithParity ==
+  \A x \in Roles : LET ep == eps[x] IN
+     /\ ep.hiOut # 0 => ep.hiOut % 2 = MyParity(ep)
+     /\ ep.hiIn # 0 => ep.hiIn % 2 = 1 - MyParity(ep)
+     /\ LET n == NextStreamId(ep) IN n = -1 \/ (n > ep.hiOut /\ n % 2 = MyParity(ep))
+     /\ \A sid \in DOMAIN ep.streams : sid <= Hi(ep, sid)
+\* C10: a step that adds an outbound open stream ends within the peer's limit
+P_C10_OutboundWithinPeerLimit ==
+  (HasSrc /\ Clean) =>
+     LET par == MyParity(Post)
+         n0 == CountOpen(Pre, par)
+         n1 == CountOpen(Post, par)
+     IN n1 > n0 => (~SHas(Pre.rs, 3) \/ SCur(Pre.rs, 3) < 0 \/ n1 <= SCur(Pre.rs, 3))
+\* C11: every SETTINGS frame of the peer is acknowledged exactly once and reported exactly once
+IsSetNoAck(f) == f.t = "SET" /\ ~f.ack
+IsSetAck(f) == f.t = "SET" /\ f.ack
+IsRSet(e) == e.t = "RSet"
+P_C11_PeerSettingsAckedOnce ==
+  (HasSrc /\ IsRecv /\ ROk /\ ~NoFlush(last) /\ Pre.out = <<>>) =>
+     /\ Count(OutF, IsSetAck) = Count(InFrames, IsSetNoAck)
+     /\ Count(last.p.e, IsRSet) = Count(InFrames, IsSetNoAck)
+\* C12: update_settings succeeds exactly on valid values; a bad received value gives the mandated code
+AllValid(pairs) == \A i \in 1..Len(pairs) : ValidateSetting(pairs[i][1], pairs[i][2]) = 0
+P_C12_SettingsValidation ==
+  /\ (HasSrc /\ IsCall /\ last.c.op = "set") =>
+        /\ ROk => AllValid(last.c.s)
+        /\ (AllValid(last.c.s) /\ <<Pre.conn, "SEND_SETTINGS">> \in DOMAIN ConnTable) => ROk
+        /\ ~AllValid(last.c.s) => OutF = <<>>
+  /\ (OneFrame("SET") /\ ~last.fs[1].ack /\ <<Pre.conn, "RECV_SETTINGS">> \in DOMAIN ConnTable) =>
+        LET fs == Collapse(last.fs[1].s) IN
+        IF AllValid(fs) THEN last.p.r.c # "InvalidSettingsValueError"
+        ELSE LET i == CHOOSE j \in 1..Len(fs) : ValidateSetting(fs[j][1], fs[j][2]) # 0 /\
+                                               \A k \in 1..(j-1) : ValidateSetting(fs[k][1], fs[k][2]) = 0
+             IN last.p.r = Exc("InvalidSettingsValueError", IF fs[i][1] = 4 THEN 3 ELSE 1)
+\* C14: with the default configuration every emitted header block is normalised and conformant
+TokOK(t) == /\ ~t.nu /\ ~t.nw /\ ~t.vlead /\ ~t.vtrail /\ t.n \notin ConnSpecific /\ ~BadTE(t)
+            /\ t.np => t.n \in KnownPseudo
+            /\ t.n \in SecureNames => t.k = "N"
+P_C14_EmittedBlocksConformant ==
+  (HasSrc /\ IsCall /\ ROk /\ last.c.op \in {"hdr", "push"} /\ Pre.cfg = DefaultCfg) =>
+     LET fs == CallOutTokens IN
+     \A i \in 1..Len(fs) : fs[i].t \in {"HEADERS", "PP"} =>
+        /\ \A j \in 1..Len(fs[i].h) : TokOK(fs[i].h[j]) /\ ~OutOfSeq(fs[i].h, j)
+        /\ \A j, k \in 1..Len(fs[i].h) : (j # k /\ fs[i].h[j].np) => fs[i].h[j].n # fs[i].h[k].n
+\* C15: with inbound validation on, a header block that is delivered in an event is conformant
+InTokOK(t) == ~t.nu /\ ~t.ne /\ ~t.nw /\ ~t.vlead /\ ~t.vtrail /\ ~BadConn(t) /\ ~BadTE(t) /\ (t.np => t.n \in KnownPseudo)
+IsHdrEvent(e) == e.t \in {"Req", "Resp", "Info", "Trl", "Push"}
+P_C15_DeliveredBlocksConformant ==
+  (HasSrc /\ last.a = "recv" /\ Len(last.fs) = 1 /\ last.fs[1].t \in {"HEADERS", "PP"} /\ Pre.cfg.vi) =>
+     LET h == CombineCookies(HL[last.fs[1].h]) IN
+     /\ (ROk /\ Count(last.p.e, IsHdrEvent) > 0) => \A j \in 1..Len(h) : InTokOK(h[j]) /\ ~OutOfSeq(h, j)
+     /\ (\E j \in 1..Len(h) : ~InTokOK(h[j]) \/ OutOfSeq(h, j)) => Count(last.p.e, IsHdrEvent) = 0
+\* C16: DATA against content-length
+P_C16_ContentLength ==
+  (OneFrame("DATA") /\ Has(Pre, last.fs[1].sid) /\ Pre.streams[last.fs[1].sid].eclSet) =>
+     LET f == last.fs[1]
+         s == Pre.streams[f.sid]
+         tot == s.acl + f.n
+     IN /\ (ROk /\ f.es /\ Count(last.p.e, LAMBDA e : e.t = "Data") > 0) => tot = s.ecl
+        /\ last.p.r.c = "InvalidBodyLengthError" => (tot > s.ecl \/ (f.es /\ tot # s.ecl))
+        /\ (ROk /\ Count(last.p.e, LAMBDA e : e.t = "Data") > 0) => tot <= s.ecl
+\* C18: a receive that raises a ProtocolError emits exactly one GOAWAY carrying the exception's code and the
+\* highest peer-initiated stream id; the code for an undecodable block is excused by the marked deviation
+IsGoAway(f) == f.t = "GOAWAY"
+P_C18_OneGoAwayWithCode ==
+  (HasSrc /\ IsRecv /\ ~ROk /\ last.p.r.c \in ProtocolErrors /\ ~NoFlush(last) /\ Pre.out = <<>>) =>
+     /\ Count(OutF, IsGoAway) = 1
+     /\ OutF[Len(OutF)].t = "GOAWAY" /\ OutF[Len(OutF)].code = last.p.r.e /\ OutF[Len(OutF)].last = Post.hiIn
+     /\ last.p.e = <<>>
+     /\ Post.conn = "CLOSED"
+\* C19: a closed connection emits nothing but GOAWAY, and calls that would emit raise
+P_C19_ClosedStaysQuiet ==
+  (HasSrc /\ Pre.conn = "CLOSED" /\ Pre.out = <<>> /\ ~Excused({"ack_data_when_closed"})) =>
+     /\ \A i \in 1..Len(OutF) : OutF[i].t = "GOAWAY"
+     /\ Post.conn = "CLOSED"
+     /\ (IsCall /\ last.c.op \in {"hdr", "data", "end", "inc", "push", "ping", "rst", "set", "alt", "prio"}) => ~ROk
+\* C20: frames on a locally reset stream are never connection errors and never produce events for it
+P_C20_ResetRacesAreStreamErrors ==
+  (HasSrc /\ last.a = "recv" /\ Len(last.fs) = 1 /\ last.fs[1].t \in {"HEADERS", "DATA", "WU", "RST"}
+     /\ ClosedBy(Pre, last.fs[1].sid) = "SRST" /\ Pre.conn # "CLOSED" /\ ~Has(Pre, last.fs[1].sid)
+     /\ (last.fs[1].t = "DATA" => FclOf(last.fs[1]) <= Pre.iw.cur)) =>
+     /\ ROk
+     /\ \A i \in 1..Len(last.p.e) : "sid" \in DOMAIN last.p.e[i] => last.p.e[i].sid # last.fs[1].sid
+\* C22: PUSH_PROMISE leaves only a server, only while the client allows push; a client with push disabled refuses it
+P_C22_PushOnlyWhenAllowed ==
+  /\ (HasSrc /\ IsCall /\ last.c.op = "push" /\ ROk) =>
+        last.x = "s" /\ SCur(Pre.rs, 2) # 0 /\ last.c.sid % 2 = 1 /\ last.c.pid % 2 = 0 /\ last.c.pid > Pre.hiOut
+        /\ Has(Pre, last.c.sid) /\ Pre.streams[last.c.sid].st \in {"OPEN", "HALF_CLOSED_REMOTE"}
+  /\ (OneFrame("PP") /\ SCur(Pre.ls, 2) = 0) => ~ROk
+\* C23: PRIORITY changes no stream or flow-control state and yields at most a PriorityUpdated
+P_C23_PriorityChangesNothing ==
+  /\ (OneFrame("PRIO") /\ ROk) =>
+        /\ Post.streams = Pre.streams /\ Post.closed = Pre.closed /\ Post.ow = Pre.ow /\ Post.iw = Pre.iw
+        /\ Post.hiIn = Pre.hiIn /\ Post.hiOut = Pre.hiOut
+        /\ \A i \in 1..Len(last.p.e) : last.p.e[i].t = "Prio"
+  /\ (HasSrc /\ IsCall /\ last.c.op = "prio") =>
+        /\ ROk => last.x = "c"
+        /\ Post.streams = Pre.streams /\ Post.ow = Pre.ow /\ Post.iw = Pre.iw
+\* C24: only a deviation-free server advertises; never both origin and stream
+P_C24_AltSvcRules ==
+  (HasSrc /\ IsCall /\ last.c.op = "alt" /\ ROk) =>
+     /\ (last.x = "s" \/ Excused({"client_advertises_idle"}))
+     /\ ~(last.c.org # <<>> /\ last.c.sid # <<>>)
+\* C26: one PING ACK with the same payload per received PING, in order; ACKs are never answered
+IsPingNoAck(f) == f.t = "PING" /\ ~f.ack
+IsPingAck(f) == f.t = "PING" /\ f.ack
+\* (a GOAWAY received later in the same call discards the unsent output, C19: such calls are not constrained here)
+P_C26_PingAnsweredOnce ==
+  (HasSrc /\ IsRecv /\ ROk /\ ~NoFlush(last) /\ Pre.out = <<>> /\ Count(InFrames, IsGoAway) = 0) =>
+     LET ins == SelectSeq(InFrames, IsPingNoAck)
+         outs == SelectSeq(OutF, IsPingAck)
+     IN [i \in 1..Len(ins) |-> ins[i].tag] = [i \in 1..Len(outs) |-> outs[i].tag]
+\* C27: the closed-stream memory is capped; frames that open nothing allocate nothing
+P_C27_ClosedMemoryBounded == \A x \in Roles : Len(eps[x].closed) <= eps[x].maxClosed
+P_C27_NoStateForNonOpeningFrames ==
+  (HasSrc /\ last.a = "recv" /\ \A i \in 1..Len(last.fs) : last.fs[i].t \in {"PRIO", "WU", "RST", "UNKNOWN", "PING", "ALT"}) =>
+     DOMAIN Post.streams \subseteq DOMAIN Pre.streams
 
 \* ---------------------------------------------------------------- emission of behaviours for replay
 Meta == [roles |-> Roles, qsids |-> QSids, max_closed |-> MaxClosed,
